@@ -3,6 +3,7 @@
 check(s), revert.  Prints one line per property: CAUGHT / MISSED / INCONCLUSIVE."""
 import subprocess, sys, os, re, time, signal
 R = os.environ.get("VERIF_REPO", "/repo")   # checks honour VERIF_REPO too (inherited environment)
+os.environ.setdefault("VERIF_EVIDENCE", "/tmp/vf_seed_evidence")
 signal.signal(signal.SIGTERM, lambda *a: sys.exit(143))
 diff = os.path.abspath(sys.argv[1])
 props = sys.argv[2:] or [re.match(r'(C\d+)', os.path.basename(diff)).group(1)]
